@@ -232,9 +232,11 @@ func c14NameScope(p *chk.Prog, r *chk.Report, ts *chk.TemplateSet) {
 			continue
 		}
 		var nb *types.Var
+		nbIdx := -1
 		for i := 0; i < sig.Params().Len(); i++ {
 			if pt, isP := sig.Params().At(i).Type().(*types.Pointer); isP && types.Identical(pt.Elem(), ncT) {
 				nb = sig.Params().At(i)
+				nbIdx = i
 			}
 		}
 		if nb == nil {
@@ -242,12 +244,20 @@ func c14NameScope(p *chk.Prog, r *chk.Report, ts *chk.TemplateSet) {
 		}
 		// the parameter objects of the literal
 		objs := map[string]types.Object{}
+		var nbObj types.Object
+		k := 0
 		for _, fl := range lit.Type.Params.List {
+			if len(fl.Names) == 0 {
+				k++
+			}
 			for _, nm := range fl.Names {
 				objs[nm.Name] = f.ObjOf(nm)
+				if k == nbIdx {
+					nbObj = f.ObjOf(nm) // by position: a method expression's receiver can be nameless in the signature
+				}
+				k++
 			}
 		}
-		nbObj := objs[nb.Name()]
 		viaID := false
 		fields := map[string]bool{}
 		used := map[types.Object]bool{}
@@ -917,6 +927,85 @@ func c14Families(p *chk.Prog, r *chk.Report) {
 					}
 				}
 				ok = ok && len(ends) > 0
+			}
+		}
+		if !ok && len(ins) == 1 && len(flg) == 0 && g.Dominated(ins[0], caseG) {
+			// the flag derived from the data when the neighbours are finished: N.flag = (some advertisement of
+			// N.Advertisements has IPFamily == this family). It says the same as long as every advertisement of the family
+			// that is processed to the end of its iteration both originates its prefix and is handed, with that family,
+			// to addToAdvertisements for the neighbour's list
+			fam0 := fam
+			fam := c.fam
+			derived := 0
+			for _, s := range g.Find(f.IsAssignPat("N."+c.flag, "V")) {
+				as := s.Node.(*ast.AssignStmt)
+				nbr := as.Lhs[0].(*ast.SelectorExpr).X
+				rid, isId := ast.Unparen(as.Rhs[0]).(*ast.Ident)
+				if !isId {
+					continue
+				}
+				ro := f.ObjOf(rid)
+				sets, clears, other := 0, 0, 0
+				for _, a := range assignsTo(f, ro) {
+					ra, isAs := a.(*ast.AssignStmt)
+					if !isAs || len(ra.Rhs) != 1 {
+						if _, isDecl := a.(*ast.DeclStmt); isDecl {
+							continue
+						}
+						if _, isSpec := a.(*ast.ValueSpec); isSpec {
+							continue
+						}
+						other++
+						continue
+					}
+					switch {
+					case f.IsConstBool(ra.Rhs[0], false):
+						clears++
+					case f.IsConstBool(ra.Rhs[0], true):
+						rs, _ := f.LoopOf(ra).(*ast.RangeStmt)
+						sites := g.Find(func(n ast.Node) bool { return n == ast.Node(ra) })
+						if rs == nil || len(sites) != 1 || f.MatchWith("N.Advertisements", ast.Unparen(rs.X), chk.H("N", func(e ast.Expr) bool { return f.SameExpr(e, nbr) })) == nil {
+							other++
+							continue
+						}
+						isFam := func(e ast.Expr) bool {
+							return isObjNamed(f, "internal/ipfamily."+fam)(unconv(f, f.Resolve(unconv(f, e))))
+						}
+						if g.Dominated(sites[0], g.GPat(true, "X.IPFamily == F", chk.H("X", rangeVal(f, rs)), chk.H("F", isFam))) {
+							sets++
+						} else {
+							other++
+						}
+					default:
+						other++
+					}
+				}
+				if sets == 1 && other == 0 {
+					derived++
+				}
+			}
+			advLoop, _ := f.LoopOf(ins[0].Node).(*ast.RangeStmt)
+			if derived == 1 && advLoop != nil {
+				famVar := func(e ast.Expr) bool { return fam0(e) }
+				handed := func(n ast.Node) bool {
+					as, isAs := n.(*ast.AssignStmt)
+					if !isAs || len(as.Rhs) != 1 {
+						return false
+					}
+					b := f.MatchNew("addToAdvertisements(NB.Advertisements, &A)", as.Rhs[0])
+					if b == nil || len(as.Lhs) < 1 || f.MatchNew("NB.Advertisements", as.Lhs[0]) == nil {
+						return false
+					}
+					return len(g.FindPat("advertisementConfig{IPFamily: F}", chk.H("F", famVar))) > 0 && definedBy(g, "advertisementConfig{IPFamily: F}", chk.H("F", famVar))(b["A"])
+				}
+				both := chk.GAnd(chk.GEvent(func(n ast.Node) bool { return n == ins[0].Top }), chk.GEvent(handed))
+				ends := g.LoopIteration(advLoop, chk.GOr(chk.GNot(caseG), both))
+				ok = len(ends) > 0
+				for _, e := range ends {
+					if !e.OK {
+						ok = false
+					}
+				}
 			}
 		}
 		x.Check(c.fam+":prefix-map-and-flag", f.Pos(), ok, "", "the "+c.fam+" arm does not both originate the prefix ("+c.m+") and mark the neighbour as having "+c.fam+" advertisements (the allow-list would get a `deny any` next to permits, or no network statement)")
